@@ -966,4 +966,570 @@ theorem insertAll_interItems_present (c : CSet) (p : Path) (x : Entry) (h : look
         have : ¬ p = e.loc := by rw [hloc, ← hkey]; exact fun hh => hk hh.symm
         simp [Map.insert, this]
 
+/-! ## relocation -/
+
+theorem rstripSlash_replicate (k : Nat) : rstripSlash (List.replicate k '/') = [] := by
+  induction k with
+  | zero => rfl
+  | succ n ih => simp [List.replicate_succ, rstripSlash, ih]
+
+theorem rstripSlash_append_ne (s : List Char) (x : Char) (hx : x ≠ '/') : rstripSlash (s ++ [x]) = s ++ [x] := by
+  induction s with
+  | nil => simp [rstripSlash, hx]
+  | cons c cs ih =>
+    simp only [List.cons_append, rstripSlash, ih]
+    simp
+
+theorem rstripSlash_append_slash (s : List Char) : rstripSlash (s ++ ['/']) = rstripSlash s := by
+  induction s with
+  | nil => simp [rstripSlash]
+  | cons c cs ih => simp only [List.cons_append, rstripSlash, ih]
+
+theorem lstripSlash_of_head (s : List Char) (h : s.head? ≠ some '/') : lstripSlash s = s := by
+  cases s with
+  | nil => rfl
+  | cons c cs =>
+    have : c ≠ '/' := by simpa using h
+    simp [lstripSlash, this]
+
+theorem lstripSlash_replicate_append (k : Nat) (s : List Char) :
+    lstripSlash (List.replicate k '/' ++ s) = lstripSlash s := by
+  induction k with
+  | zero => simp
+  | succ n ih => simp [List.replicate_succ, lstripSlash, ih]
+
+/-- the joined components end in a non-slash character -/
+theorem joinSlash_eq_append_last (cs : List (List Char)) (hne : cs ≠ []) (h : ∀ c ∈ cs, SlashFreeNE c) :
+    ∃ s x, joinSlash cs = s ++ [x] ∧ x ≠ '/' := by
+  induction cs with
+  | nil => exact absurd rfl hne
+  | cons a r ih =>
+    cases r with
+    | nil =>
+      obtain ⟨hane, hasl⟩ := h a (by simp)
+      refine ⟨a.dropLast, a.getLast hane, by simp [joinSlash, List.dropLast_concat_getLast], ?_⟩
+      intro hx
+      exact hasl (hx ▸ List.getLast_mem hane)
+    | cons b r' =>
+      obtain ⟨s, x, hs, hx⟩ := ih (by simp) (fun c hc => h c (by simp [hc]))
+      exact ⟨a ++ '/' :: s, x, by rw [joinSlash_cons_cons, hs]; simp, hx⟩
+
+theorem render_nil (k : Nat) : render k [] = List.replicate k '/' := by simp [render, joinSlash]
+
+theorem render_append (k : Nat) (cs0 rel : List (List Char)) (h0 : cs0 ≠ []) (hr : rel ≠ []) :
+    render k (cs0 ++ rel) = render k cs0 ++ '/' :: joinSlash rel := by
+  simp [render, joinSlash_append cs0 rel h0 hr]
+
+theorem rstripSlash_render (k : Nat) (cs : List (List Char)) (hcl : Clean cs) :
+    rstripSlash (render k cs) = if cs = [] then [] else render k cs := by
+  by_cases hcs : cs = []
+  · subst hcs; simp [render_nil, rstripSlash_replicate]
+  · rw [if_neg hcs]
+    obtain ⟨s, x, hs, hx⟩ := joinSlash_eq_append_last cs hcs (Clean.slashFree hcl)
+    have : render k cs = (List.replicate k '/' ++ s) ++ [x] := by simp [render, hs]
+    rw [this, rstripSlash_append_ne _ _ hx]
+
+/-- the part of a location that `change_offset_rewriter` keeps: drop the old offset, strip the slashes -/
+theorem strip_old_prefix (k : Nat) (cs0 rel : List (List Char)) (hcl0 : Clean cs0) (hrel : Clean rel) :
+    lstripSlash ((render k (cs0 ++ rel)).drop (rstripSlash (render k cs0)).length) = joinSlash rel := by
+  have hhead := joinSlash_head_ne_slash rel (Clean.slashFree hrel)
+  rw [rstripSlash_render k cs0 hcl0]
+  by_cases h0 : cs0 = []
+  · subst h0
+    simp only [if_true, List.length_nil, List.drop_zero, List.nil_append]
+    rw [render, lstripSlash_replicate_append, lstripSlash_of_head _ hhead]
+  · rw [if_neg h0]
+    by_cases hr : rel = []
+    · subst hr
+      simp [joinSlash, lstripSlash]
+    · rw [render_append k cs0 rel h0 hr, List.drop_left]
+      simp [lstripSlash, lstripSlash_of_head _ hhead]
+
+theorem initialSlashes_congr3 (c0 c1 c2 : Char) (t u : List Char) :
+    initialSlashes (c0 :: c1 :: c2 :: t) = initialSlashes (c0 :: c1 :: c2 :: u) := rfl
+
+theorem initialSlashes_congr2 (c0 c1 : Char) (t u : List Char) (h : c1 ≠ '/') :
+    initialSlashes (c0 :: c1 :: t) = initialSlashes (c0 :: c1 :: u) := by
+  simp [initialSlashes, h]
+
+/-- appending after a trailing slash something that does not start with a slash keeps `initial_slashes` -/
+theorem initialSlashes_append_of_trailing (a b : List Char) (ha : a.head? = some '/')
+    (hl : a.getLast? = some '/') (hb : b.head? ≠ some '/') : initialSlashes (a ++ b) = initialSlashes a := by
+  match a, ha, hl with
+  | [c0], ha, _ =>
+    have : c0 = '/' := by simpa using ha
+    subst this
+    cases b with
+    | nil => rfl
+    | cons y ys =>
+      have : y ≠ '/' := by simpa using hb
+      simp [initialSlashes, this]
+  | [c0, c1], ha, hl =>
+    have h0 : c0 = '/' := by simpa using ha
+    have h1 : c1 = '/' := by simpa using hl
+    subst h0 h1
+    cases b with
+    | nil => rfl
+    | cons y ys =>
+      have : y ≠ '/' := by simpa using hb
+      simp [initialSlashes, this]
+  | c0 :: c1 :: c2 :: t, _, _ => exact initialSlashes_congr3 c0 c1 c2 _ _
+
+/-- appending `/…` to something that does not end in a slash keeps `initial_slashes` -/
+theorem initialSlashes_append_slash (a b : List Char) (ha : a.head? = some '/')
+    (hl : a.getLast? ≠ some '/') : initialSlashes (a ++ '/' :: b) = initialSlashes a := by
+  match a, ha, hl with
+  | [c0], ha, hl =>
+    have : c0 = '/' := by simpa using ha
+    subst this
+    simp at hl
+  | [c0, c1], _, hl =>
+    have h1 : c1 ≠ '/' := by simpa using hl
+    exact initialSlashes_congr2 c0 c1 _ _ h1
+  | c0 :: c1 :: c2 :: t, _, _ => exact initialSlashes_congr3 c0 c1 c2 _ _
+
+theorem goodStack_append_clean (abs : Bool) (a b : List (List Char)) (ha : Clean a) (hb : GoodStack abs b) :
+    GoodStack abs (a ++ b) := by
+  induction a with
+  | nil => exact hb
+  | cons x xs ih => exact ⟨Or.inl (ha x (by simp)), ih (fun c hc => ha c (by simp [hc]))⟩
+
+/-- how `normpath` reads an absolute path back: the root and the clean components -/
+theorem normpath_abs_eq (s : List Char) (h : s.head? = some '/') :
+    GoodStack true (normLoop true [] (splitSlash s)) ∧
+      normpath s = render (initialSlashes s) (normLoop true [] (splitSlash s)).reverse ∧
+      (initialSlashes s = 1 ∨ initialSlashes s = 2) := by
+  have hs : s ≠ [] := by intro e; simp [e] at h
+  have hpos : initialSlashes s ≠ 0 := (initialSlashes_pos_iff s).2 h
+  have hk : initialSlashes s = 1 ∨ initialSlashes s = 2 := by
+    rcases initialSlashes_le s with h0 | h1 | h2
+    · exact absurd h0 hpos
+    · exact Or.inl h1
+    · exact Or.inr h2
+  have hb : (initialSlashes s != 0) = true := by simpa using hpos
+  refine ⟨normLoop_good true _ [] trivial (splitSlash_mem_noslash s), ?_, hk⟩
+  unfold normpath
+  rw [if_neg hs]
+  simp only [hb, render]
+  rw [if_neg]
+  rcases hk with h1 | h2
+  · rw [h1]; simp [List.replicate]
+  · rw [h2]; simp [List.replicate]
+
+/-- normalising `join(new, rel-path)`: the components of `new` followed by those of the relative part -/
+theorem normpath_pjoin (new : Path) (rel : List (List Char)) (hnew : new.head? = some '/') (hrel : Clean rel) :
+    normpath (pjoin new (joinSlash rel)) =
+      render (initialSlashes new) ((normLoop true [] (splitSlash new)).reverse ++ rel) := by
+  have hhead := joinSlash_head_ne_slash rel (Clean.slashFree hrel)
+  have hne : new ≠ [] := by intro e; simp [e] at hnew
+  obtain ⟨hgoodA, _, _⟩ := normpath_abs_eq new hnew
+  -- what the component loop does on the relative part, starting from the stack left by `new`
+  have hrest : ∀ acc, GoodStack true acc →
+      normLoop true acc (splitSlash (joinSlash rel)) = rel.reverse ++ acc := by
+    intro acc hacc
+    by_cases hr : rel = []
+    · subst hr; simp [joinSlash, splitSlash, normLoop]
+    · rw [splitSlash_joinSlash rel hr (fun c hc => (hrel c hc).2.1)]
+      exact normLoop_fixed true rel acc (goodStack_append_clean true _ _ (by
+        intro c hc; exact hrel c (by simpa using hc)) hacc)
+  unfold pjoin
+  rw [if_neg hhead]
+  by_cases hl : new.getLast? = some '/'
+  · rw [if_pos (Or.inr hl)]
+    -- new = new' ++ "/"
+    obtain ⟨new', hn'⟩ : ∃ new', new = new' ++ ['/'] := by
+      refine ⟨new.dropLast, ?_⟩
+      have h2 := List.getLast?_eq_some_getLast hne
+      rw [h2] at hl
+      have hl' : new.getLast hne = '/' := by simpa using hl
+      have := List.dropLast_concat_getLast (l := new) hne
+      rw [hl'] at this
+      exact this.symm
+    have hX : new ++ joinSlash rel = new' ++ '/' :: joinSlash rel := by rw [hn']; simp
+    have hsplitnew : splitSlash new = splitSlash new' ++ [[]] := by
+      rw [hn', splitSlash_append_slash]; rfl
+    have hA : normLoop true [] (splitSlash new) = normLoop true [] (splitSlash new') := by
+      rw [hsplitnew, normLoop_append]; simp [normLoop]
+    have habs : (new ++ joinSlash rel).head? = some '/' := by
+      cases new with
+      | nil => exact absurd rfl hne
+      | cons c cs => simpa using hnew
+    obtain ⟨_, hnp, _⟩ := normpath_abs_eq (new ++ joinSlash rel) habs
+    rw [hnp, initialSlashes_append_of_trailing new _ hnew hl hhead, hX, splitSlash_append_slash,
+      normLoop_append, ← hA, hrest _ hgoodA]
+    simp
+  · have hcond : ¬ (new = [] ∨ new.getLast? = some '/') := by
+      rintro (h | h)
+      · exact hne h
+      · exact hl h
+    rw [if_neg hcond]
+    have habs : (new ++ '/' :: joinSlash rel).head? = some '/' := by
+      cases new with
+      | nil => exact absurd rfl hne
+      | cons c cs => simpa using hnew
+    obtain ⟨_, hnp, _⟩ := normpath_abs_eq (new ++ '/' :: joinSlash rel) habs
+    rw [hnp, initialSlashes_append_slash new _ hnew hl, splitSlash_append_slash, normLoop_append,
+      hrest _ hgoodA]
+    simp
+
+/-- one location through `change_offset_rewriter` -/
+theorem rewriteLoc_render (old new : Path) (k : Nat) (cs0 rel : List (List Char))
+    (hcl0 : Clean cs0) (hrel : Clean rel)
+    (hold : normpath (if old = [] then ['/'] else old) = render k cs0) (hnew : new.head? = some '/') :
+    rewriteLoc (offsetLen old) new (render k (cs0 ++ rel)) =
+      render (initialSlashes new) ((normLoop true [] (splitSlash new)).reverse ++ rel) := by
+  unfold rewriteLoc offsetLen
+  rw [hold, strip_old_prefix k cs0 rel hcl0 hrel, normpath_pjoin new rel hnew hrel]
+
+theorem update_nil_of_nodup (l c : CSet) (h : ((c ++ l).map (·.loc)).Nodup) : update c l = c ++ l := by
+  induction l generalizing c with
+  | nil => simp [update]
+  | cons e es ih =>
+    have hnot : e.loc ∉ c.map (·.loc) := by
+      intro hin
+      rw [List.map_append, List.nodup_append] at h
+      exact h.2.2 _ hin _ (by simp) rfl
+    have hds : dictSet c e = c ++ [e] := by
+      clear ih h
+      induction c with
+      | nil => rfl
+      | cons x xs ih2 =>
+        have hx : x.loc ≠ e.loc := fun hh => hnot (by simp [hh])
+        have : e.loc ∉ xs.map (·.loc) := fun hh => hnot (by simp only [List.map_cons, List.mem_cons]; exact Or.inr hh)
+        simp [dictSet, hx, ih2 this]
+    show update (dictSet c e) es = c ++ e :: es
+    rw [hds, ih (c ++ [e]) (by simpa using h)]
+    simp
+
+theorem mapM_some_of_forall {α β : Type} (g : α → Option β) (f : α → β) (l : List α)
+    (h : ∀ x ∈ l, g x = some (f x)) : l.mapM g = some (l.map f) := by
+  induction l with
+  | nil => rfl
+  | cons a as ih =>
+    rw [List.mapM_cons, h a (by simp), ih (fun x hx => h x (by simp [hx]))]
+    rfl
+
+/-! ## dirname -/
+
+theorem headToLastSlash_noslash (c : List Char) (h : '/' ∉ c) : headToLastSlash c = [] := by
+  induction c with
+  | nil => rfl
+  | cons x xs ih =>
+    have hx : x ≠ '/' := fun e => h (by simp [e])
+    have hxs : '/' ∉ xs := fun e => h (by simp [e])
+    simp [headToLastSlash, ih hxs, hx]
+
+theorem headToLastSlash_append_slash (a c : List Char) (h : '/' ∉ c) :
+    headToLastSlash (a ++ '/' :: c) = a ++ ['/'] := by
+  induction a with
+  | nil => simp [headToLastSlash, headToLastSlash_noslash c h]
+  | cons x xs ih => simp [headToLastSlash, ih]
+
+theorem headToLastSlash_prefix (p : List Char) : ∃ r, p = headToLastSlash p ++ r := by
+  induction p with
+  | nil => exact ⟨[], rfl⟩
+  | cons x xs ih =>
+    obtain ⟨r, hr⟩ := ih
+    simp only [headToLastSlash]
+    split
+    · exact ⟨r, by simp [← hr]⟩
+    · split
+      · exact ⟨xs, by simp⟩
+      · exact ⟨x :: xs, by simp⟩
+
+theorem rstripSlash_prefix (s : List Char) : ∃ r, s = rstripSlash s ++ r := by
+  induction s with
+  | nil => exact ⟨[], rfl⟩
+  | cons x xs ih =>
+    obtain ⟨r, hr⟩ := ih
+    simp only [rstripSlash]
+    split
+    · exact ⟨x :: xs, by simp⟩
+    · exact ⟨r, by simp [← hr]⟩
+
+theorem dirname_prefix (p : List Char) : ∃ r, p = dirname p ++ r := by
+  obtain ⟨r1, h1⟩ := headToLastSlash_prefix p
+  unfold dirname
+  simp only
+  split
+  · obtain ⟨r2, h2⟩ := rstripSlash_prefix (headToLastSlash p)
+    exact ⟨r2 ++ r1, by rw [← List.append_assoc, ← h2, ← h1]⟩
+  · exact ⟨r1, h1⟩
+
+theorem dirname_length_le (p : List Char) : (dirname p).length ≤ p.length := by
+  obtain ⟨r, hr⟩ := dirname_prefix p
+  have := congrArg List.length hr
+  simp at this
+  omega
+
+/-- a path `dirname` does not shorten is a fixed point of `dirname` -/
+theorem dirname_fixed (p : List Char) (h : ¬ (dirname p).length < p.length) : dirname p = p := by
+  obtain ⟨r, hr⟩ := dirname_prefix p
+  have hl := congrArg List.length hr
+  simp at hl
+  have : r = [] := List.eq_nil_of_length_eq_zero (by omega)
+  rw [this] at hr
+  simpa using hr.symm
+
+theorem dirname_render (k : Nat) (hk : k = 1 ∨ k = 2) (cs : List (List Char)) (hcl : Clean cs) :
+    dirname (render k cs) = render k cs.dropLast := by
+  by_cases hcs : cs = []
+  · subst hcs
+    rcases hk with rfl | rfl <;> decide
+  · have hsplit := List.dropLast_concat_getLast hcs
+    have hcm : cs.getLast hcs ∈ cs := List.getLast_mem hcs
+    generalize cs.getLast hcs = c at hsplit hcm
+    have hdl : ∀ x ∈ cs.dropLast, x ∈ cs := fun x hx => List.mem_of_mem_take (by rw [← List.dropLast_eq_take]; exact hx)
+    generalize cs.dropLast = init at hsplit hdl
+    have hcns : '/' ∉ c := (hcl c hcm).2.1
+    by_cases hi : init = []
+    · -- a single component under the root
+      have hcs1 : cs = [c] := by rw [← hsplit, hi]; rfl
+      rw [hi, render_nil]
+      have hr : render k cs = List.replicate (k - 1) '/' ++ '/' :: c := by
+        rw [hcs1]
+        rcases hk with rfl | rfl <;> simp [render, joinSlash, List.replicate]
+      unfold dirname
+      simp only
+      rw [hr, headToLastSlash_append_slash _ _ hcns]
+      have hall : List.replicate (k - 1) '/' ++ ['/'] = List.replicate k '/' := by
+        rcases hk with rfl | rfl <;> rfl
+      rw [hall]
+      simp
+    · have hclinit : Clean init := fun x hx => hcl x (hdl x hx)
+      obtain ⟨s, x, hs, hx⟩ := joinSlash_eq_append_last init hi (Clean.slashFree hclinit)
+      have hr : render k cs = (List.replicate k '/' ++ joinSlash init) ++ '/' :: c := by
+        rw [← hsplit, render, joinSlash_append_single init c hi]; simp
+      unfold dirname
+      simp only
+      rw [hr, headToLastSlash_append_slash _ _ hcns]
+      have hnotall : (List.replicate k '/' ++ joinSlash init) ++ ['/'] ≠
+          List.replicate ((List.replicate k '/' ++ joinSlash init) ++ ['/']).length '/' := by
+        intro heq
+        have hmem : x ∈ (List.replicate k '/' ++ joinSlash init) ++ ['/'] := by simp [hs]
+        rw [heq] at hmem
+        exact hx (List.eq_of_mem_replicate hmem)
+      rw [if_pos ⟨by simp, hnotall⟩, rstripSlash_append_slash]
+      have : List.replicate k '/' ++ joinSlash init = (List.replicate k '/' ++ s) ++ [x] := by simp [hs]
+      rw [this, rstripSlash_append_ne _ _ hx, ← this]
+      rfl
+
+/-- `n`-fold parent -/
+def up : Nat → Path → Path
+  | 0, t => t
+  | n + 1, t => dirname (up n t)
+
+theorem up_succ' (n : Nat) (t : Path) : up (n + 1) t = up n (dirname t) := by
+  induction n with
+  | zero => rfl
+  | succ m ih => simp only [up] at ih ⊢; rw [ih]
+
+theorem clean_take {cs : List (List Char)} (h : Clean cs) (n : Nat) : Clean (cs.take n) :=
+  fun c hc => h c (List.mem_of_mem_take hc)
+
+theorem up_render (k : Nat) (hk : k = 1 ∨ k = 2) (cs : List (List Char)) (hcl : Clean cs) (j : Nat) :
+    up j (render k cs) = render k (cs.take (cs.length - j)) := by
+  induction j with
+  | zero => simp [up]
+  | succ n ih =>
+    simp only [up, ih]
+    rw [dirname_render k hk _ (clean_take hcl _), List.dropLast_eq_take, List.take_take]
+    congr 2
+    simp only [List.length_take]
+    omega
+
+/-! ## completing directories -/
+
+/-- `t in self` for a path string -/
+def inS (c : CSet) (t : Path) : Prop := contains c (.path t) = true
+
+theorem inS_iff_of_normal {c : CSet} {t : Path} (h : Normal t) : inS c t ↔ hasKey c t = true := by
+  show hasKey c (normpath t) = true ↔ _
+  rw [h]
+
+theorem mem_setAdd {s : List Path} {x y : Path} : x ∈ setAdd s y ↔ x ∈ s ∨ x = y := by
+  unfold setAdd
+  split
+  · rename_i h
+    constructor
+    · exact Or.inl
+    · rintro (h1 | rfl)
+      · exact h1
+      · exact h
+  · simp
+
+theorem climb_mono (c : CSet) (missing : List Path) (t : Path) : ∀ m ∈ missing, m ∈ climb c missing t := by
+  fun_induction climb c missing t with
+  | case1 missing t h => intro m hm; exact hm
+  | case2 missing t h hlt ih => intro m hm; exact ih m (mem_setAdd.2 (Or.inl hm))
+  | case3 missing t h hlt => intro m hm; exact mem_setAdd.2 (Or.inl hm)
+
+theorem climb_target (c : CSet) (missing : List Path) (t : Path) : t ∈ climb c missing t ∨ inS c t := by
+  fun_induction climb c missing t with
+  | case1 missing t h =>
+    rcases h with h | h
+    · exact Or.inl h
+    · exact Or.inr h
+  | case2 missing t h hlt ih => exact Or.inl (climb_mono c _ _ t (mem_setAdd.2 (Or.inr rfl)))
+  | case3 missing t h hlt => exact Or.inl (mem_setAdd.2 (Or.inr rfl))
+
+theorem climb_sound (c : CSet) (missing : List Path) (t : Path) :
+    ∀ x ∈ climb c missing t, x ∈ missing ∨ (¬ inS c x ∧ ∃ j, up j t = x) := by
+  fun_induction climb c missing t with
+  | case1 missing t h => intro x hx; exact Or.inl hx
+  | case2 missing t h hlt ih =>
+    intro x hx
+    rcases ih x hx with h1 | ⟨hns, j, hj⟩
+    · rcases mem_setAdd.1 h1 with h2 | rfl
+      · exact Or.inl h2
+      · exact Or.inr ⟨fun hh => h (Or.inr hh), 0, rfl⟩
+    · exact Or.inr ⟨hns, j + 1, by rw [up_succ']; exact hj⟩
+  | case3 missing t h hlt =>
+    intro x hx
+    rcases mem_setAdd.1 hx with h2 | rfl
+    · exact Or.inl h2
+    · exact Or.inr ⟨fun hh => h (Or.inr hh), 0, rfl⟩
+
+/-- every path the loop adds has its parent in the result or in the set: the climb goes all the way -/
+theorem climb_closed (c : CSet) (missing : List Path) (t : Path) :
+    ∀ x ∈ climb c missing t, x ∈ missing ∨ dirname x ∈ climb c missing t ∨ inS c (dirname x) := by
+  fun_induction climb c missing t with
+  | case1 missing t h => intro x hx; exact Or.inl hx
+  | case2 missing t h hlt ih =>
+    intro x hx
+    rcases ih x hx with h1 | h1
+    · rcases mem_setAdd.1 h1 with h2 | rfl
+      · exact Or.inl h2
+      · exact Or.inr (climb_target c _ (dirname x))
+    · exact Or.inr h1
+  | case3 missing t h hlt =>
+    intro x hx
+    rcases mem_setAdd.1 hx with h2 | rfl
+    · exact Or.inl h2
+    · refine Or.inr (Or.inl ?_)
+      rw [dirname_fixed x hlt]
+      exact mem_setAdd.2 (Or.inr rfl)
+
+/-- the `for x in missing_initial` loop -/
+def climbAll (c : CSet) (l : List Path) (m : List Path) : List Path :=
+  l.foldl (fun m x => climb c m (dirname x)) m
+
+theorem climbAll_mono (c : CSet) (l m : List Path) : ∀ x ∈ m, x ∈ climbAll c l m := by
+  induction l generalizing m with
+  | nil => intro x hx; exact hx
+  | cons y ys ih => intro x hx; exact ih _ x (climb_mono c m _ x hx)
+
+theorem climbAll_sound (c : CSet) (l m : List Path) :
+    ∀ x ∈ climbAll c l m, x ∈ m ∨ (¬ inS c x ∧ ∃ y ∈ l, ∃ j, up j (dirname y) = x) := by
+  induction l generalizing m with
+  | nil => intro x hx; exact Or.inl hx
+  | cons y ys ih =>
+    intro x hx
+    rcases ih _ x hx with h1 | ⟨hns, z, hz, j, hj⟩
+    · rcases climb_sound c m _ x h1 with h2 | ⟨hns, j, hj⟩
+      · exact Or.inl h2
+      · exact Or.inr ⟨hns, y, by simp, j, hj⟩
+    · exact Or.inr ⟨hns, z, by simp [hz], j, hj⟩
+
+theorem climbAll_closed (c : CSet) (l m : List Path)
+    (h : ∀ x ∈ m, x ∈ l ∨ dirname x ∈ m ∨ inS c (dirname x)) :
+    ∀ x ∈ climbAll c l m, dirname x ∈ climbAll c l m ∨ inS c (dirname x) := by
+  induction l generalizing m with
+  | nil =>
+    intro x hx
+    rcases h x hx with h1 | h1
+    · simp at h1
+    · exact h1
+  | cons y ys ih =>
+    apply ih
+    intro x hx
+    rcases climb_closed c m (dirname y) x hx with h1 | h1
+    · rcases h x h1 with h2 | h2 | h2
+      · rcases List.mem_cons.1 h2 with rfl | h3
+        · exact Or.inr (climb_target c m (dirname x))
+        · exact Or.inl h3
+      · exact Or.inr (Or.inl (climb_mono c m _ _ h2))
+      · exact Or.inr (Or.inr h2)
+    · exact Or.inr h1
+
+/-- `{x.dirname for x in self if x.dirname not in self}` -/
+def missing0 (c : CSet) : List Path :=
+  (c.map fun (x : Entry) => dirname x.loc).foldl (fun s d => if contains c (.path d) then s else setAdd s d) []
+
+theorem mem_missing0 (c : CSet) (x : Path) :
+    x ∈ missing0 c ↔ ¬ inS c x ∧ ∃ e ∈ c, dirname e.loc = x := by
+  have gen : ∀ (l : List Path) (s : List Path),
+      x ∈ l.foldl (fun s d => if contains c (.path d) then s else setAdd s d) s ↔
+        x ∈ s ∨ (¬ inS c x ∧ x ∈ l) := by
+    intro l
+    induction l with
+    | nil => intro s; simp
+    | cons d ds ih =>
+      intro s
+      rw [List.foldl_cons, ih]
+      by_cases hd : contains c (.path d) = true
+      · rw [if_pos hd]
+        simp only [List.mem_cons]
+        constructor
+        · rintro (h | ⟨h1, h2⟩)
+          · exact Or.inl h
+          · exact Or.inr ⟨h1, Or.inr h2⟩
+        · rintro (h | ⟨h1, h2 | h2⟩)
+          · exact Or.inl h
+          · subst h2; exact absurd hd h1
+          · exact Or.inr ⟨h1, h2⟩
+      · rw [if_neg hd]
+        simp only [mem_setAdd, List.mem_cons]
+        constructor
+        · rintro ((h | h) | ⟨h1, h2⟩)
+          · exact Or.inl h
+          · subst h; exact Or.inr ⟨hd, Or.inl rfl⟩
+          · exact Or.inr ⟨h1, Or.inr h2⟩
+        · rintro (h | ⟨h1, h2 | h2⟩)
+          · exact Or.inl (Or.inl h)
+          · exact Or.inl (Or.inr h2)
+          · exact Or.inr ⟨h1, h2⟩
+  unfold missing0
+  rw [gen]
+  simp only [List.not_mem_nil, false_or, List.mem_map]
+
+theorem addMissingDirectories_eq (c : CSet) (t : Nat) :
+    addMissingDirectories c t =
+      update c (((climbAll c (missing0 c) (missing0 c)).filter (· ≠ ['/'])).map fun x => mkEntry x kindDir t) := rfl
+
+theorem mem_of_mapM_some {α β : Type} (g : α → Option β) (l : List α) (r : List β) (h : l.mapM g = some r) :
+    ∀ x ∈ r, ∃ y ∈ l, g y = some x := by
+  induction l generalizing r with
+  | nil =>
+    simp only [List.mapM_nil, Option.pure_def, Option.some.injEq] at h
+    subst h; simp
+  | cons a as ih =>
+    rw [List.mapM_cons] at h
+    cases ha : g a with
+    | none => simp [ha] at h
+    | some b =>
+      cases has : as.mapM g with
+      | none => simp [ha, has] at h
+      | some bs =>
+        simp only [ha, has, Option.pure_def, Option.bind_eq_bind, Option.bind_some, Option.some.injEq] at h
+        subst h
+        intro x hx
+        rcases List.mem_cons.1 hx with rfl | hx
+        · exact ⟨a, by simp, ha⟩
+        · obtain ⟨y, hy, hg⟩ := ih bs has x hx
+          exact ⟨y, by simp [hy], hg⟩
+
+theorem nodup_map_of_injOn {α β : Type} (f : α → β) (l : List α) (h : l.Nodup)
+    (hinj : ∀ x ∈ l, ∀ y ∈ l, f x = f y → x = y) : (l.map f).Nodup := by
+  induction l with
+  | nil => simp
+  | cons a as ih =>
+    rw [List.map_cons, List.nodup_cons]
+    obtain ⟨ha, has⟩ := List.nodup_cons.1 h
+    refine ⟨?_, ih has (fun x hx y hy => hinj x (by simp [hx]) y (by simp [hy]))⟩
+    intro hmem
+    obtain ⟨b, hb, hfb⟩ := List.mem_map.1 hmem
+    have := hinj b (by simp [hb]) a (by simp) hfb
+    subst this; exact ha hb
+
 end Pkgcore.C22
